@@ -2212,3 +2212,58 @@ func writtenInTheCurrentFormat(c *Ctx, r *Report, rule string) {
 	})
 	r.Floor(rule, "pre-sign and sign steps of the entry constructor", n, 2)
 }
+
+// dispatcherWaitsBeforeLeaving: the dispatch loop of the fetcher runs "while the queue is not empty", and the queue
+// is refilled by the workers; what keeps the loop alive while the queue is momentarily empty and workers are still
+// out is the wait at the end of its body. A `continue` in the body goes back to the loop test without that wait:
+// when it skips the last queued hash the dispatcher leaves for good and the links the workers bring back are never
+// followed.
+func dispatcherWaitsBeforeLeaving(c *Ctx, r *Report, rule string) {
+	p := c.P
+	pq := p.FuncI("entry", "Fetcher", "processQueue")
+	n := 0
+	walkNoLit(pq.Body, func(nd ast.Node) bool {
+		loop, ok := nd.(*ast.ForStmt)
+		if !ok {
+			return true
+		}
+		// the dispatch loop: its body spawns the worker and contains the wait
+		spawns, waits := false, false
+		for _, st := range loop.Body.List {
+			if _, ok := st.(*ast.GoStmt); ok {
+				spawns = true
+			}
+			ast.Inspect(st, func(m ast.Node) bool {
+				if _, lit := m.(*ast.FuncLit); lit {
+					return false
+				}
+				if call, ok := m.(*ast.CallExpr); ok {
+					if se, ok := ast.Unparen(call.Fun).(*ast.SelectorExpr); ok && se.Sel.Name == "Wait" {
+						waits = true
+					}
+				}
+				return true
+			})
+		}
+		if !spawns || !waits {
+			return true
+		}
+		n++
+		var bad *ast.BranchStmt
+		walkNoLit(loop.Body, func(m ast.Node) bool {
+			if br, ok := m.(*ast.BranchStmt); ok && br.Tok == token.CONTINUE && branchTarget(p, pq, br) == ast.Node(loop) && bad == nil {
+				bad = br
+			}
+			return true
+		})
+		pos := loop.Pos()
+		if bad != nil {
+			pos = bad.Pos()
+		}
+		r.Check(bad == nil, rule, r.Key(rule, pq, "dispatch-loop", ""), pos,
+			"every turn of the dispatch loop ends in the wait for queued work or for the last worker",
+			"a continue in the dispatch loop goes back to the `queue not empty` test without the wait at the end of the body: when it skips the last queued hash while workers are still out the dispatcher leaves for good, and the links those workers bring back are never followed — the load returns a truncated log without an error")
+		return true
+	})
+	r.Floor(rule, "dispatch loops of the fetcher", n, 1)
+}
